@@ -123,8 +123,8 @@ def cdist_rows(queries, choices, *, scorer=None, processor=None, score_cutoff=No
     CALLS.append(("cdist", {"dtype": dtype, "score_cutoff": score_cutoff, "workers": workers,
                             "score_multiplier": score_multiplier}))
     kw = dict(scorer_kwargs or {})
-    qs = [queries[i] for i in range(len(queries))] if not isinstance(queries, list) else queries
-    cs = [choices[i] for i in range(len(choices))] if not isinstance(choices, list) else choices
+    qs = list(queries)       # rapidfuzz iterates its arguments (a pandas Series yields its values, whatever its index)
+    cs = list(choices)
     rows = []
     for q in qs:
         row = []
